@@ -103,6 +103,42 @@ theorem sse_nonneg (D : ι → ℝ) (ψ : ι → ℂ) : 0 ≤ sseAdded P D ψ :=
     · positivity
   · apply Finset.sum_nonneg; intro k _; positivity
 
+/-! ### the other operator classes use the same projection -/
+
+/-- The simultaneous (warm-up, forward, reverse), mixed-state warm-up and multislice operators apply literally the same
+symbol `D·exp(1j·angle z)` before `ifft2`; all projection theorems above therefore hold for them as well. -/
+theorem projection_symbol_shared (d : ℝ) (z : ℂ) :
+    projSimWarmup d z = projectionSymbol d z ∧ projSimForward d z = projectionSymbol d z ∧
+    projSimReverse d z = projectionSymbol d z ∧ projMixedWarmup d z = projectionSymbol d z ∧
+    projMultislice d z = projectionSymbol d z := ⟨rfl, rfl, rfl, rfl, rfl⟩
+
+/-- **Mixed-state projection** (`MixedStatePtychographicOperator._fourier_projection`): every probe mode `k` is rescaled by
+`D / √(Σₖ |F ψₖ|²)`; the summed modal intensity then equals the measured intensity `D²` wherever the current intensity is
+non-zero. -/
+theorem mixed_projection_total_intensity {κ : Type*} [Fintype κ] (d : ℝ) (z : κ → ℂ)
+    (hN : Real.sqrt (∑ k, ‖z k‖ ^ 2) ≠ 0) :
+    ∑ k, ‖mixedSymbol (mixedAmplitude d (Real.sqrt (∑ k, ‖z k‖ ^ 2))) (z k)‖ ^ 2 = d ^ 2 := by
+  have hS : 0 ≤ ∑ k, ‖z k‖ ^ 2 := Finset.sum_nonneg fun k _ => by positivity
+  have hsq : Real.sqrt (∑ k, ‖z k‖ ^ 2) ^ 2 = ∑ k, ‖z k‖ ^ 2 := Real.sq_sqrt hS
+  have hterm : ∀ k, ‖mixedSymbol (mixedAmplitude d (Real.sqrt (∑ k, ‖z k‖ ^ 2))) (z k)‖ ^ 2
+      = d ^ 2 / (Real.sqrt (∑ k, ‖z k‖ ^ 2)) ^ 2 * ‖z k‖ ^ 2 := by
+    intro k
+    unfold mixedSymbol mixedAmplitude
+    rw [norm_mul, norm_div, Complex.norm_real, Complex.norm_real, mul_pow, div_pow, Real.norm_eq_abs, Real.norm_eq_abs,
+      sq_abs, sq_abs]
+  simp only [hterm]
+  rw [← Finset.mul_sum, hsq]
+  have hne : (∑ k, ‖z k‖ ^ 2) ≠ 0 := by
+    intro h0; apply hN; rw [h0, Real.sqrt_zero]
+  field_simp
+
+/-- … and the phase of every mode is kept (the rescaling factor is a positive real). -/
+theorem mixed_projection_phase (d N : ℝ) (hd : 0 < d) (hN : 0 < N) (z : ℂ) :
+    Complex.arg (mixedSymbol (mixedAmplitude d N) z) = Complex.arg z := by
+  unfold mixedSymbol mixedAmplitude
+  rw [← Complex.ofReal_div]
+  exact Complex.arg_real_mul z (div_pos hd hN)
+
 /-! ### the r-PIE update (generated `exitWave`, `objectTerm`, `probeTerm`) -/
 
 structure RpieParams where
@@ -262,6 +298,31 @@ theorem window_nodup (cx cy : Rat) (nx ny sx sy : Nat) (hx : nx ≤ sx) (hy : ny
     intro i hi j hj h
     rw [colIndex_eq, colIndex_eq] at h
     exact mod_window_inj _ ny sy hy i j (List.mem_range.mp hi) (List.mem_range.mp hj) h
+
+/-- the window as a map from window pixels `(i, j)` to object pixels (what `np.ix_` builds from the two index vectors) -/
+def windowMap (cx cy : Rat) (nx ny sx sy : Nat) (ij : Fin nx × Fin ny) : Int × Int :=
+  ((wrappedWindow cx cy nx ny sx sy).1.getD ij.1 0, (wrappedWindow cx cy nx ny sx sy).2.getD ij.2 0)
+
+/-- A window that fits into the array maps distinct window pixels to distinct object pixels. -/
+theorem windowMap_injective (cx cy : Rat) (nx ny sx sy : Nat) (hx : nx ≤ sx) (hy : ny ≤ sy) :
+    Function.Injective (windowMap cx cy nx ny sx sy) := by
+  obtain ⟨h1, h2⟩ := window_entries cx cy nx ny sx sy
+  rintro ⟨i, j⟩ ⟨i', j'⟩ h
+  simp only [windowMap, Prod.mk.injEq, List.getD_eq_getElem?_getD, h1 i i.2, h1 i' i'.2, h2 j j.2, h2 j' j'.2,
+    Option.getD_some] at h
+  obtain ⟨hr, hc⟩ := h
+  have e1 : (i : Nat) = i' := mod_window_inj _ nx sx hx i i' i.2 i'.2 (by simpa [add_assoc] using hr)
+  have e2 : (j : Nat) = j' := mod_window_inj _ ny sy hy j j' j.2 j'.2 (by simpa [add_assoc] using hc)
+  exact Prod.ext (Fin.ext e1) (Fin.ext e2)
+
+/-- **Index part and update part together**: for a probe window that fits into the object, every object pixel under the
+window `round(position) − ⌊n/2⌋ + (i, j)` (mod the object size) receives exactly its own r-PIE term. -/
+theorem update_inside_wrapped_window (cx cy : Rat) (nx ny sx sy : Nat) (hx : nx ≤ sx) (hy : ny ≤ sy) (par : RpieParams)
+    (obj : Int × Int → ℂ) (probe ψ ψ' : Fin nx × Fin ny → ℂ) (pmax : ℝ) (ij : Fin nx × Fin ny) :
+    updateObject (windowMap cx cy nx ny sx sy) par obj probe ψ ψ' pmax (windowMap cx cy nx ny sx sy ij)
+      = obj (windowMap cx cy nx ny sx sy ij) + par.objectStep * (starRingEnd ℂ) (probe ij) * (ψ' ij - ψ ij)
+          / ((1 - par.alpha) * (‖probe ij‖ : ℂ) ^ 2 + par.alpha * pmax) :=
+  update_inside_window _ (windowMap_injective cx cy nx ny sx sy hx hy) par obj probe ψ ψ' pmax ij
 
 /-- A window larger than the array necessarily repeats a pixel (pigeonhole) — the case excluded above. -/
 theorem window_repeats_counterexample : ¬ (wrappedWindow 0 0 3 1 2 1).1.Nodup := by decide +kernel
